@@ -152,6 +152,13 @@ SpecialStrs == {S(<<>>),
                 S(<<"a", NL, "b">>)}
 IntsIO   == {I(<<"0">>), I(<<"1","0">>)}
 FloatsIO == {F(<<"0",".","5">>), F(<<"1",".","5">>)}
+(* numbers whose text is not digits-point-digits: non-finite, negative, negative zero, exponent *)
+(* notation (the text is python's repr of the float, which is what csv.writer writes)           *)
+NonFinite == {F(<<"n","a","n">>), F(<<"i","n","f">>), F(<<"-","i","n","f">>)}
+ExpFloats == {F(<<"1","e","-","0","7">>)}
+FloatsX == NonFinite \cup ExpFloats \cup {F(<<"1",".","5">>), F(<<"-","2",".","2","5">>), F(<<"-","0",".","0">>)}
+IntsX   == {I(<<"0">>), I(<<"-","3">>), I(<<"1","0","0","0","0","0","0","0","0","0","0","0","0","0","0","0","0","0">>)}
+HasExp(t) == {i \in 1..Len(t.rows) : {j \in 1..Len(t.header) : t.rows[i][j] \in ExpFloats} # {}} # {}
 BoolsIO  == {cTrue, cFalse}
 
 MaxRowsIO == IF Profile = "quick" THEN 2 ELSE 3
@@ -188,9 +195,13 @@ IOTables(profile) ==      \* (a parameter keeps TLC from building the set when i
     \cup TablesOf(<<<<"s">>>>, <<{S(<<>>), S(<<"a">>), S(<<" ">>), S(<<" ", "a">>)}>>, 0, 2)
     \cup TablesOf(<<<<"k">>>>, <<IntsIO>>, 0, 2)
     \cup TablesOf(<<<<"m">>, <<"k">>>>, <<{None, I(<<"0">>)}, IntsIO>>, 1, 2)
+    \* numeric restoration: every such value at every row position (also the first), all-non-finite columns
+    \cup TablesOf(<<<<"f">>, <<"k">>>>, <<FloatsX, IntsX>>, 1, MaxRowsIO)
+    \cup TablesOf(<<<<"f">>>>, <<NonFinite \cup {F(<<"1",".","5">>)}>>, 1, 3)
 
-Paths == {"tsv", "csv", "tsv.gz", "csv.gz", "json", "pickle", "to_csv", "to_tsv"}
-SepOf(path) == IF path \in {"tsv", "tsv.gz", "to_tsv"} THEN TAB ELSE COMMA
+Paths == {"tsv", "csv", "tsv.gz", "csv.gz", "json", "pickle", "to_csv", "to_tsv", "writer"}
+(* "writer": Table.write(path.tsv, writer=separator_formatter(sep="\t")), a caller supplied line formatter *)
+SepOf(path) == IF path \in {"tsv", "tsv.gz", "to_tsv", "writer"} THEN TAB ELSE COMMA
 Delimited(path) == path \notin {"json", "pickle"}
 ViaWriter(path) == path \in {"tsv", "csv", "tsv.gz", "csv.gz"}
 
@@ -202,18 +213,25 @@ Demanded(t, path) == [header |-> t.header, rows |-> t.rows,
 
 (* the text each writer is given for a cell *)
 WriterText(c) == Txt(c)                                   \* csv.writer: str(value), None -> ""
-FormatText(c) == CASE Tag(c) = "f" -> Txt(c) \o <<"0","0","0">>     \* digits=4 display format
+WriterLineText(c) == IF Tag(c) = "n" THEN <<"N","o","n","e">> ELSE Txt(c)
+DotAt(chars) == IF Has(chars, ".") THEN CHOOSE i \in 1..Len(chars) : chars[i] = "." ELSE 0
+FormatText(c) == CASE Tag(c) = "f" ->                                 \* digits=4 display format ("%.4f")
+                        IF DotAt(Txt(c)) = 0 THEN Txt(c)              \* nan, inf
+                        ELSE Txt(c) \o [i \in 1..(4 - (Len(Txt(c)) - DotAt(Txt(c)))) |-> "0"]
                    [] Tag(c) = "n" -> <<"N","o","n","e">>
                    [] OTHER -> Txt(c)
 TextRows(t, Conv(_)) == <<t.header>> \o Map(t.rows, LAMBDA r : Map(r, Conv))
 
 ModelFile(t, path) ==
     IF ViaWriter(path) THEN CsvFile(TextRows(t, WriterText), SepOf(path))
+    ELSE IF path = "writer"       \* "%s" of every value, joined by the separator, lines joined by "\n"
+         THEN JoinWith(Map(TextRows(t, WriterLineText), LAMBDA r : JoinWith(r, TAB)), NL)
     ELSE IF Delimited(path) THEN SepFile(TextRows(t, FormatText), SepOf(path))
     ELSE <<>>
 (* does the character-level model predict that the text survives? *)
 ModelOK(t, path) ==
     IF ViaWriter(path) THEN RoundTrips(TextRows(t, WriterText), ModelFile(t, path), SepOf(path))
+    ELSE IF path = "writer" THEN RoundTrips(TextRows(t, WriterLineText), ModelFile(t, path), TAB)
     ELSE IF Delimited(path) THEN RoundTrips(TextRows(t, FormatText), ModelFile(t, path), SepOf(path))
     ELSE TRUE
 
@@ -243,6 +261,12 @@ CaseClass(t, path) ==
         missing |-> \E i \in 1..Len(t.rows) : \E j \in 1..Len(t.header) : t.rows[i][j] = None]
 
 -----------------------------------------------------------------------------
+(* to_csv / to_tsv round floats to 4 decimals (display format): exponent values are not exact there. *)
+(* A caller supplied line writer does no quoting: it is given tables without special cells.           *)
+PathApplies(t, path) ==
+    /\ path \in {"to_csv", "to_tsv"} => ~HasExp(t)
+    /\ path = "writer" => (NumSpecial(t) = 0 /\ Len(t.rows) >= 1)
+
 Once(result) == ~done /\ done' = TRUE /\ res' = result /\ UNCHANGED tab
 
 (* design group: the three model outputs for one table and one separator *)
@@ -267,7 +291,7 @@ Init == /\ done = FALSE
 Next == /\ ~done
         /\ \/ Group = "design" /\ \E sep \in Seps : TextModels(sep)
            \/ Group = "design" /\ CheckLaws
-           \/ Group = "io" /\ \E path \in Paths : RoundTrip(path)
+           \/ Group = "io" /\ \E path \in Paths : PathApplies(tab, path) /\ RoundTrip(path)
            \/ Group = "io" /\ CheckLaws
 
 Spec == Init /\ [][Next]_vars
